@@ -2,7 +2,7 @@
     ([original] : the same state machine with the repairs switched off), and examples showing that the
     hypotheses of the positive theorems are satisfiable. *)
 From Coq Require Import List Bool Arith ZArith Lia.
-From CB Require Import Model.C12_MeshLife Proofs.C12_Lists Proofs.C12_MeshLife.
+From CB Require Import Model.C12_MeshLife Proofs.C12_Lists Proofs.C12_MeshLife Proofs.C12_Roundtrip.
 Import ListNotations.
 
 (** the tables as they are in util/constants.py (only used for the witnesses below; Properties/C12.v
@@ -31,7 +31,7 @@ Theorem original_write_twice_refuted :
   ~ (forall tb s s2 ev, write original tb s = Ok s2 ev -> write original tb s2 = Ok s2 ev).
 Proof.
   intro H.
-  pose (s := {| depot := [1]; ops := store2; deleted := []; verts := []; blocks := []; patches := [];
+  pose (s := {| depot := [1]; ops := store2; deleted := []; verts := []; blocks := []; patches := []; prank := [];
                 dflt := None; merged := [] |}).
   remember (write original tb0 s) as r eqn:E. vm_compute in E.
   destruct r as [s2 ev|e]; [|discriminate]. symmetry in E. pose proof (H tb0 s s2 ev) as H2.
@@ -89,7 +89,7 @@ Proof.
   intro H.
   pose (c := {| depot := []; ops := []; deleted := []; verts := []; blocks := [];
                 patches := [{| p_name := 1; p_kind := 2; p_set := [0]; p_mod := true; p_sides := [] |}];
-                dflt := None; merged := [] |}).
+                prank := [1]; dflt := None; merged := [] |}).
   assert (Hc : clean c) by (repeat split; repeat constructor).
   specialize (H tb0 c Hc). vm_compute in H. discriminate.
 Qed.
@@ -112,7 +112,7 @@ Theorem original_backport_refuted :
          else Err E_runtime).
 Proof.
   intro H.
-  pose (c := {| depot := [0; 1]; ops := store2; deleted := [0]; verts := []; blocks := []; patches := [];
+  pose (c := {| depot := [0; 1]; ops := store2; deleted := [0]; verts := []; blocks := []; patches := []; prank := [];
                 dflt := None; merged := [] |}).
   assert (Hc : clean c) by (repeat split; constructor).
   destruct store2_wf as [W P].
@@ -132,7 +132,42 @@ Proof. vm_compute. repeat split; reflexivity. Qed.
 
 (** hypotheses of backport_moves are satisfiable *)
 Example moves_hyps :
-  let c := {| depot := [0; 1]; ops := store2; deleted := [0]; verts := []; blocks := []; patches := [];
+  let c := {| depot := [0; 1]; ops := store2; deleted := [0]; verts := []; blocks := []; patches := []; prank := [];
               dflt := None; merged := [] |} in
   clean c /\ NoDup (map fst (live_ops c)).
 Proof. simpl. split; [repeat split; constructor|]. vm_compute. constructor; [intros []|constructor]. Qed.
+
+(** 5. before fixes/C12-5b.diff: a patch modified AFTER the assembly is kept by clear while the others are created
+    again behind it - 'boundary' comes out in another order.  Operation 0 of [store5] has patch 0 at the bottom
+    and patch 1 on top; [add 0; assemble; modify patch 1; clear; write] against the same without clear *)
+Definition store5 : list (nat * op) := [(0, box 0 [Some 0; Some 1; None; None; None; None])].
+Definition names_of (r : list event * option error) : list (list nat) :=
+  map (fun e => match e with EFile f => map (fun p => fst (fst (fst p))) (f_patches f) | _ => [] end) (fst r).
+Example before_rank_order_changes :
+  names_of (run before_rank tb0 (init store5) [Add 0; Assemble; ModifyPatch 1 1 None; Write]) = [[0; 1]]
+  /\ names_of (run before_rank tb0 (init store5) [Add 0; Assemble; ModifyPatch 1 1 None; Clear; Write]) = [[1; 0]]
+  /\ names_of (run fixed tb0 (init store5) [Add 0; Assemble; ModifyPatch 1 1 None; Clear; Write]) = [[0; 1]].
+Proof. vm_compute. repeat split; reflexivity. Qed.
+
+(** the round-trip law of Proofs/C12_Roundtrip.v as a statement about a configuration of repairs *)
+Definition roundtrip_law (c : cfg) : Prop :=
+  forall tb store h0 s0 h s,
+    steps c tb (init store) h0 = Some s0 ->
+    is_assembled (assemble tb (clear c s0)) = true ->
+    steps c tb (assemble tb (clear c s0)) h = Some s -> forallb quiet h = true ->
+    same_result (write c tb (clear c s)) (write c tb s).
+
+Theorem roundtrip_fixed : roundtrip_law fixed.
+Proof. exact roundtrip_reachable. Qed.
+
+Theorem roundtrip_before_rank_refuted : ~ roundtrip_law before_rank.
+Proof.
+  intro H.
+  pose (s0 := with_user (init store5) [0] [] None []).
+  assert (E0 : steps before_rank tb0 (init store5) [Add 0] = Some s0) by reflexivity.
+  assert (A0 : is_assembled (assemble tb0 (clear before_rank s0)) = true) by (vm_compute; reflexivity).
+  destruct (steps before_rank tb0 (assemble tb0 (clear before_rank s0)) [ModifyPatch 1 1 None]) as [s|] eqn:E1;
+    [|vm_compute in E1; discriminate].
+  pose proof (H tb0 store5 [Add 0] s0 [ModifyPatch 1 1 None] s E0 A0 E1 eq_refl) as X.
+  vm_compute in E1. injection E1 as Es. subst s. vm_compute in X. discriminate.
+Qed.
